@@ -158,6 +158,9 @@ func (t *cthread) pickID() *pbresource.ID {
 	id := clone(hx.Pick(t.r, t.keys))
 	ki := t.info(id)
 	switch {
+	case ki.uid != "" && t.r.Chance(10):
+		id.Uid = nearUid(t.r, ki.uid) // almost the uid it knows (another case, one character off, padded, empty)
+		t.h.tag("conc:near-uid-presented")
 	case ki.uid != "" && t.r.Chance(80):
 		id.Uid = ki.uid
 	case t.r.Chance(50):
